@@ -7,6 +7,7 @@ mod runner;
 mod simple;
 mod codec;
 mod replhist;
+mod eqhash;
 mod treeprops;
 
 use runner::*;
@@ -28,7 +29,8 @@ fn main() {
   if std::env::var("VERIF_DEBUG").is_err() { std::panic::set_hook(Box::new(|_| {})); }
   let cfg = RunCfg { seed, cases, threads, driver, thorough, max_shrink: 4 };
   let t0 = std::time::Instant::now();
-  let result = if let Some(p) = treeprops::by_id(&id) {
+  if id == "hashdump" { for h in eqhash::hash_dump(seed, cases as usize) { println!("{h}"); } return; }
+  let result = if let Some(p) = treeprops::by_id(&id).or_else(|| match id.as_str() { "C14" => Some(eqhash::c14()), "C20" => Some(eqhash::c20()), _ => None }) {
     let mut p = p;
     if let Some(dir) = arg(&args, "--corpus") { p.corpus.extend(load_corpus(&dir)); }
     if let Some(f) = arg(&args, "--replay") {
@@ -37,7 +39,19 @@ fn main() {
       p.corpus = vec![case_of_reqs(&reqs).expect("replay case")];
       let cfg = RunCfg { cases: 0, threads: 1, ..cfg };
       tree_json(&p, &run_tree_prop(&p, &cfg))
-    } else { tree_json(&p, &run_tree_prop(&p, &cfg)) }
+    } else {
+      let mut j = tree_json(&p, &run_tree_prop(&p, &cfg));
+      if id == "C20" || id == "C14" {
+        // reproducibility across processes and threads: the same generated trees hash identically in two fresh processes and here
+        let exe = std::env::current_exe().unwrap();
+        let run = || std::process::Command::new(&exe).args(["hashdump", "--seed", &seed.to_string(), "--cases", "300"]).output().map(|o| String::from_utf8_lossy(&o.stdout).to_string()).unwrap_or_default();
+        let (a, b) = (run(), run());
+        let here: String = std::thread::spawn(move || eqhash::hash_dump(seed, 300)).join().unwrap().iter().map(|h| format!("{h}\n")).collect();
+        j["extra"] = json!({ "cross_process_hashes_compared": 300, "cross_process_equal": a == b && a == here && !a.is_empty() });
+        if !(a == b && a == here && !a.is_empty()) { j["failures"].as_array_mut().unwrap().push(json!({ "kind": "oracle", "clause": "hash-reproducible-across-processes", "detail": "hash values of the same trees differ between processes/threads", "known": null, "case": {"requests": []} })); }
+      }
+      j
+    }
   } else if id == "C12" {
     let mut r = simple::run_simple("C12", &codec::gen, &codec::corpus(), &cfg);
     let mut d = core::Driver::spawn(&cfg.driver);
